@@ -54,7 +54,8 @@ import vlib
 from vlib import ToolError, log
 
 SERVER_TARGET = os.path.join(vlib.HARNESS, "target-repo")
-SERVER_BIN = os.path.join(SERVER_TARGET, "debug", "kyrodb_server")
+SERVER_BUILT = os.path.join(SERVER_TARGET, "debug", "kyrodb_server")    # where cargo puts it
+SERVER_BIN = os.path.join(vlib.BIN, "kyrodb_server")                    # this process's private copy (see vlib.build)
 SRVDRIVE = os.path.join(vlib.BIN, "srvdrive")
 
 # A configuration the unmodified server accepts in environment "production" on loopback.
@@ -76,9 +77,10 @@ _seq = [0]
 
 
 def build_server():
-    """cargo build kyrodb_server from /repo's working tree (identical to checks/c18.py: shared target + lock)."""
+    """cargo build kyrodb_server from /repo's working tree into the shared target directory, then take a private copy
+    under the build lock (a concurrently started check relinks the shared file)."""
     global _built
-    if _built or (os.environ.get("VERIF_NO_BUILD") == "1" and os.path.exists(SERVER_BIN)):
+    if _built:
         return
     t0 = time.time()
     os.makedirs(SERVER_TARGET, exist_ok=True)
@@ -88,14 +90,17 @@ def build_server():
            "--target-dir", SERVER_TARGET]
     with open(os.path.join(SERVER_TARGET, ".verif.lock"), "w") as lk:
         fcntl.flock(lk, fcntl.LOCK_EX)
-        try:
-            p = subprocess.run(cmd, cwd=vlib.REPO, env=env, stdout=subprocess.PIPE, stderr=subprocess.STDOUT,
-                               text=True, timeout=2400)
-        except subprocess.TimeoutExpired:
-            raise ToolError("kyrodb_server build timed out")
-    if p.returncode != 0 or not os.path.exists(SERVER_BIN):
-        log(p.stdout[-6000:])
-        raise ToolError("kyrodb_server build failed")
+        if not (os.environ.get("VERIF_NO_BUILD") == "1" and os.path.exists(SERVER_BUILT)):
+            try:
+                p = subprocess.run(cmd, cwd=vlib.REPO, env=env, stdout=subprocess.PIPE, stderr=subprocess.STDOUT,
+                                   text=True, timeout=2400)
+            except subprocess.TimeoutExpired:
+                raise ToolError("kyrodb_server build timed out")
+            if p.returncode != 0 or not os.path.exists(SERVER_BUILT):
+                log(p.stdout[-6000:])
+                raise ToolError("kyrodb_server build failed")
+        os.makedirs(os.path.dirname(SERVER_BIN), exist_ok=True)
+        shutil.copy2(SERVER_BUILT, SERVER_BIN)
     _built = True
     log("[build server] %.1fs" % (time.time() - t0))
 
